@@ -22,7 +22,7 @@ use std::borrow::Cow;
 use std::rc::Rc;
 use std::sync::Arc;
 
-pub const N_OPS: i64 = 40;
+pub const N_OPS: i64 = 43;
 
 /// Reduced alphabet for the exhaustive block (op, arg).
 const SMALL_ALPHABET: &[(i64, i64)] = &[
@@ -128,6 +128,63 @@ fn family_code(f: &str) -> i64 {
 // ---------------------------------------------------------------------------------------
 // lock-step
 
+/// The inherent sub-view constructors (`range`, `range_from`, `range_to`), which are documented
+/// to panic when the range is out of bounds: None = panicked. Reversed ranges are never asked
+/// for. RelocateReader has no such methods; it takes the same sub-view through Reader
+/// operations and an error there counts as the refusal.
+pub trait Ranged: Sized {
+    fn ranged(&self, kind: i64, a: usize, b: usize) -> Option<Self>;
+}
+
+impl<'i> Ranged for EndianSlice<'i, RunTimeEndian> {
+    fn ranged(&self, kind: i64, a: usize, b: usize) -> Option<Self> {
+        crate::engine::expect_panic(|| match kind {
+            0 => self.range(a..b),
+            1 => self.range_from(a..),
+            _ => self.range_to(..b),
+        })
+    }
+}
+
+impl<T: gimli::CloneStableDeref<Target = [u8]> + std::fmt::Debug> Ranged for EndianReader<RunTimeEndian, T> {
+    fn ranged(&self, kind: i64, a: usize, b: usize) -> Option<Self> {
+        crate::engine::expect_panic(|| match kind {
+            0 => self.range(a..b),
+            1 => self.range_from(a..),
+            _ => self.range_to(..b),
+        })
+    }
+}
+
+impl<'i> Ranged for RelocateReader<EndianSlice<'i, RunTimeEndian>, Identity> {
+    fn ranged(&self, kind: i64, a: usize, b: usize) -> Option<Self> {
+        let mut r = self.clone();
+        match kind {
+            0 => {
+                r.skip(a).ok()?;
+                r.truncate(b - a).ok()?;
+            }
+            1 => r.skip(a).ok()?,
+            _ => r.truncate(b).ok()?,
+        }
+        Some(r)
+    }
+}
+
+impl Ranged for ModelReader {
+    fn ranged(&self, kind: i64, a: usize, b: usize) -> Option<Self> {
+        let (lo, hi) = match kind {
+            0 => (a, b),
+            1 => (a, self.len),
+            _ => (0, b),
+        };
+        if lo > hi || hi > self.len {
+            return None;
+        }
+        Some(ModelReader { buf: self.buf.clone(), start: self.start + lo, len: hi - lo, endian: self.endian })
+    }
+}
+
 struct Pool<R> {
     root: R,
     h: Vec<Option<R>>,
@@ -155,7 +212,7 @@ fn res<T: std::fmt::Debug>(r: gimli::Result<T>) -> String {
 
 /// Apply one operation to handle `hi` of a pool; returns the canonical outcome and
 /// possibly a new handle.
-fn apply<R: Reader<Offset = usize>>(pool: &mut Pool<R>, hi: usize, other: usize, op: &[i64], emptied: &[bool], other_contains: bool) -> (String, Option<R>) {
+fn apply<R: Reader<Offset = usize> + Ranged>(pool: &mut Pool<R>, hi: usize, other: usize, op: &[i64], emptied: &[bool], other_contains: bool) -> (String, Option<R>) {
     let a = op[2] as u64;
     let b = op[3] as u64;
     let other_id = pool.h.get(other).and_then(|x| x.as_ref()).map(|x| x.offset_id());
@@ -258,6 +315,19 @@ fn apply<R: Reader<Offset = usize>>(pool: &mut Pool<R>, hi: usize, other: usize,
         36 => "drop".into(),
         37 => format!("len={} is_empty={}", r.len(), r.is_empty()),
         38 => res(r.read_u8_array::<[u8; 3]>()),
+        40 | 41 | 42 => {
+            // sub-views through the inherent constructors, in and out of bounds
+            let span = r.len() + 3;
+            let (x, y) = ((a % (span as u64 + 1)) as usize, (b % (span as u64 + 1)) as usize);
+            let (lo, hi) = (x.min(y), x.max(y));
+            match r.ranged(op[0] - 40, lo, hi) {
+                Some(n) => {
+                    new = Some(n);
+                    "Ok(subview)".into()
+                }
+                None => "refused".into(),
+            }
+        }
         _ => res(r.read_u8().and_then(|_| r.read_u16())),
     };
     (s, new)
